@@ -102,3 +102,11 @@ Theorem C20_wakeup_is_queued_last :
     In b (queued l) \/ (a_tgt b = t /\ a_sig b = s /\ a_due b = now l /\ a_seq b = nseq l).
 Proof. exact know_due. Qed.
 Print Assumptions C20_wakeup_is_queued_last.
+
+(** (A) the tie to /repo's current source: every function this property's models were transcribed from has, in the
+    tree this run is checking, the normalised source it had when the models were validated (hashes regenerated from
+    /repo into gen/Generated.v on every run; pins in gen/SourcePins.v).  A change to one of them invalidates the
+    transcription until it is re-validated. *)
+From UsimGen Require SourcePins Pin_C20.
+Theorem C20_modelled_source_unchanged : forallb SourcePins.pin_ok Pin_C20.pins = true.
+Proof. exact Pin_C20.src_unchanged. Qed.
